@@ -17,7 +17,7 @@ REQUIRED_COUNTERS = ["pair." + t for t in TRANSFORMS] + ["names.enumerated", "na
 
 def plan(tier):
     if tier == "thorough":
-        return [{"variant": "plain", "workers": 16, "cases": 1500}]
+        return [{"variant": "plain", "workers": 16, "cases": 5000}]
     return [{"variant": "plain", "workers": 16, "cases": 90}]
 
 
